@@ -179,6 +179,7 @@ static void run_campaigns(Ctx& ctx) {
 }
 
 int main(int argc, char** argv) {
+  tp::allow_unassigned_simple = true;
   { gen::E2 e(gen::leaves_full(), [&](const gen::Bytes& b, int) { g_pool.push_back(b); }); e.run(2); }
   const char* sh = getenv("VERIF_SHARD");
   if (sh && (atoi(sh) & 1)) { va::g.locked = true; va::g.single_cap = (size_t)1 << 24; cbor_set_allocs(va::vmalloc, va::vrealloc, va::vfree); }
